@@ -14,10 +14,10 @@ open Zc Zc.Reply GenFacts
 
 theorem mem_purgeDict {W : List RecId} {d : Dict} {e : RecId × List RecId} (h : e ∈ purgeDict W d) :
     ∃ e0 ∈ d, e0.1 = e.1 ∧ e.1 ∉ W ∧ e.2 = e0.2.filter (fun a => !W.contains a) := by
-  unfold purgeDict at h
+  unfold purgeDict Dict.withdraw at h
   rw [List.mem_map] at h
   obtain ⟨e0, he0, rfl⟩ := h
-  rw [List.mem_filter] at he0
+  rw [List.mem_filter, GenFacts.q_remove_keep] at he0
   refine ⟨e0, he0.1, rfl, ?_, rfl⟩
   simpa using he0.2
 
@@ -29,16 +29,16 @@ theorem keys_purgeDict (W : List RecId) (d : Dict) (x : RecId) : x ∈ (purgeDic
     exact ⟨⟨e0, he0, h1⟩, h2⟩
   · rintro ⟨⟨e0, he0, rfl⟩, hx⟩
     refine ⟨(e0.1, e0.2.filter (fun a => !W.contains a)), ?_, rfl⟩
-    unfold purgeDict
+    unfold purgeDict Dict.withdraw
     rw [List.mem_map]
-    exact ⟨e0, List.mem_filter.mpr ⟨he0, by simpa using hx⟩, rfl⟩
+    exact ⟨e0, List.mem_filter.mpr ⟨he0, by rw [GenFacts.q_remove_keep]; simpa using hx⟩, rfl⟩
 
 theorem map_sk_purgeQ (W : List RecId) (q : Queue) : (purgeQ W q).groups.map Group.sk = q.groups.map Group.sk := by
-  simp [purgeQ, Group.sk, Function.comp_def]
+  simp [purgeQ, Queue.removeRecords, Group.sk, Function.comp_def]
 
 theorem mem_purgeQ {W : List RecId} {q : Queue} {g' : Group} (h : g' ∈ (purgeQ W q).groups) :
     ∃ g ∈ q.groups, g' = { g with answers := purgeDict W g.answers } := by
-  simp only [purgeQ, List.mem_map] at h
+  simp only [purgeQ, Queue.removeRecords, List.mem_map] at h
   obtain ⟨g, hg, rfl⟩ := h
   exact ⟨g, hg, rfl⟩
 
@@ -64,7 +64,7 @@ theorem purgeH_q (W : List RecId) (h : Host) (d : Bool) : (purgeH W h).q d = pur
 theorem purgeQ_keeps {W : List RecId} {q : Queue} {g : Group} {r : RecId} (hg : g ∈ q.groups) (hr : r ∈ g.answers.keys) (hW : r ∉ W) :
     ∃ g' ∈ (purgeQ W q).groups, r ∈ g'.answers.keys ∧ g'.born = g.born := by
   refine ⟨{ g with answers := purgeDict W g.answers }, ?_, (keys_purgeDict W g.answers r).mpr ⟨hr, hW⟩, rfl⟩
-  simp only [purgeQ, List.mem_map]
+  simp only [purgeQ, Queue.removeRecords, List.mem_map]
   exact ⟨g, hg, rfl⟩
 
 /-! ### runs -/
@@ -213,5 +213,8 @@ theorem decide_defer_truncated {h : Host} {e : Ev} {lis : Listener} {d : Int} (h
     simp only [Host.decide] at hd
     repeat' split at hd
     all_goals cases hd
+  | qremove t d recs =>
+    simp only [Host.decide] at hd
+    cases hd
 
 end Zc.Bridge
